@@ -489,41 +489,56 @@ func init() {
 					obs = append(obs, Obligation{Rule: "TRO.tail-forwarders", Func: "lisp." + e.Table, Construct: "construct " + e.Name, Verdict: Undecided, Detail: "no body"})
 					continue
 				}
-				info := u.Pkg.TypesInfo
-				fc := c.cfgOf(u, lit)
-				stores := fc.blocksWith(func(n ast.Node) bool {
-					rhs, rinfo, ok := c.storeNodeOf(info, n, termFld)
-					return ok && isBoolConst(rinfo, rhs, true)
-				})
 				bad := ""
 				nret := 0
-				ast.Inspect(body, func(n ast.Node) bool {
-					if _, isLit := n.(*ast.FuncLit); isLit {
-						return false
-					}
-					rs, ok := n.(*ast.ReturnStmt)
-					if !ok || len(rs.Results) != 1 {
-						return true
-					}
-					ce, ok := ast.Unparen(rs.Results[0]).(*ast.CallExpr)
-					if !ok {
-						return true
-					}
-					fn := originOf(Callee(info, ce))
-					if fn == nil || !ev[fn] {
-						return true
-					}
-					nret++
-					if byFlag[e.Name] {
-						loc, found := fc.Locate(rs)
-						if !found || len(stores) == 0 || fc.reachableAvoidingBlocks(loc.B, nil, stores) && !stores[loc.B] {
-							bad = "returns " + fn.Name() + "(...) on a path that has not set Top().Terminal = true"
+				// checkBody judges the returns of one body; a return that hands back the result of a
+				// same-package helper (funcall and apply sharing `terminalFunCall`) is judged in the helper
+				var checkBody func(u FuncUnit, lit *ast.FuncLit, body ast.Node, depth int)
+				checkBody = func(u FuncUnit, lit *ast.FuncLit, body ast.Node, depth int) {
+					info := u.Pkg.TypesInfo
+					fc := c.cfgOf(u, lit)
+					stores := fc.blocksWith(func(n ast.Node) bool {
+						rhs, rinfo, ok := c.storeNodeOf(info, n, termFld)
+						return ok && isBoolConst(rinfo, rhs, true)
+					})
+					ast.Inspect(body, func(n ast.Node) bool {
+						if _, isLit := n.(*ast.FuncLit); isLit {
+							return false
 						}
-					} else {
-						bad = "returns the result of " + fn.Name() + "(...) instead of env.Terminal(expr): the last form is evaluated on a new Go/elps frame"
-					}
-					return true
-				})
+						rs, ok := n.(*ast.ReturnStmt)
+						if !ok || len(rs.Results) != 1 {
+							return true
+						}
+						ce, ok := ast.Unparen(rs.Results[0]).(*ast.CallExpr)
+						if !ok {
+							return true
+						}
+						fn := originOf(Callee(info, ce))
+						if fn == nil {
+							return true
+						}
+						loc, found := fc.Locate(rs)
+						marked := found && len(stores) > 0 && (stores[loc.B] || !fc.reachableAvoidingBlocks(loc.B, nil, stores))
+						if !ev[fn] {
+							if byFlag[e.Name] && depth < 2 && !marked && fn.Pkg() == u.Obj.Pkg() {
+								if hd := c.declOf[fn]; hd != nil && hd.Body != nil {
+									checkBody(FuncUnit{fn, hd, c.pkgOf[hd]}, nil, hd.Body, depth+1)
+								}
+							}
+							return true
+						}
+						nret++
+						if byFlag[e.Name] {
+							if !marked {
+								bad = "returns " + fn.Name() + "(...) on a path that has not set Top().Terminal = true"
+							}
+						} else {
+							bad = "returns the result of " + fn.Name() + "(...) instead of env.Terminal(expr): the last form is evaluated on a new Go/elps frame"
+						}
+						return true
+					})
+				}
+				checkBody(u, lit, body, 0)
 				construct := "construct " + e.Name
 				switch {
 				case bad != "":
